@@ -30,7 +30,7 @@ func (c19) ID() string { return "C19" }
 func (c19) Meta() kit.Meta {
 	return kit.Meta{
 		Level: "exploration",
-		Rule: "a case = (generated source: terms with known byte extents separated by layout / %-comments / block comments, ASCII and 2-4 byte UTF-8, with or without trailing layout, optionally 5-9 KB; or random bytes for binary streams) x (stream configuration: user_input, host text/binary stream, host stream with Stat size, file opened by open/4 with each eof_action and type) x (device behaviour: chunk profile incl. cuts inside UTF-8 sequences, EOF with data / after data, empty reads, more input after end of file, transient / dead read errors) x (history of <= 25 operations get_char/peek_char/get_code/peek_code/get_byte/peek_byte/read/read_term/at_end_of_stream/stream_property position+end_of_stream/skip-n/feed) x (delivery: one query per operation under the cooperative scheduler, conjunction of direct stream built-ins in one query, conjunction of the arity-1 wrappers) ; output cases = put_char/nl/write/writeq/write_canonical/put_byte/flush_output on two simulated sinks with failing / short writes. " +
+		Rule: "a case = (generated source: terms with known byte extents separated by layout / %-comments / block comments, ASCII and 2-4 byte UTF-8, with or without trailing layout, one case in eight ending in a term without its end token, optionally 5-9 KB; or random bytes for binary streams) x (stream configuration: user_input, host text/binary stream, host stream with Stat size, file opened by open/4 with each eof_action and type) x (device behaviour: chunk profile incl. cuts inside UTF-8 sequences, EOF with data / after data, empty reads, more input after end of file, transient / dead read errors) x (history of <= 25 operations get_char/peek_char/get_code/peek_code/get_byte/peek_byte/read/read_term/at_end_of_stream/stream_property position+end_of_stream/skip-n/feed) x (delivery: one query per operation under the cooperative scheduler, conjunction of direct stream built-ins in one query, conjunction of the arity-1 wrappers) ; output cases = put_char/nl/write/writeq/write_canonical/put_byte/flush_output on two simulated sinks with failing / short writes. " +
 			"distinct = distinct (source, configuration, history, delivery, schedule). non-trivial = at least one change of operation kind (peek->get, read_term->get_char, ...) and at least one chunk boundary inside an operation (input) or at least 3 writes on 2 streams (output).",
 		Assumptions: []string{
 			"cursor model: byte offset + end-of-stream state; read_term leaves the cursor immediately after the end token; peeks return what the next get returns and change nothing; position = bytes consumed",
@@ -85,6 +85,9 @@ type c19Source struct {
 	}
 }
 
+// c19Tails are beginnings of a term that the end of the text cuts.
+var c19Tails = []string{"b", "foo(a", "'bc", "[1, 2", "X =", "\"ab", "0'", "f(x) :- g", "- 1"}
+
 func c19GenSource(g *kit.Lane, big bool) *c19Source {
 	s := &c19Source{}
 	var sb []byte
@@ -134,7 +137,22 @@ func c19GenSource(g *kit.Lane, big bool) *c19Source {
 			gap(true)
 		}
 	}
-	mark[len(sb)] = true
+	if !big && g.Choose(8) == 0 {
+		// a last term without its end token (the text ends inside the term): its extent reaches past the bytes
+		if nItems > 0 && !mark[len(sb)-1] {
+			sb = append(sb, ' ')
+			mark[len(sb)-1] = true
+		}
+		tail := c19Tails[g.Choose(len(c19Tails))]
+		mark[len(sb)] = true
+		s.items = append(s.items, struct {
+			start, end int
+			canon      string
+		}{len(sb), len(sb) + len(tail) + 1, ""})
+		sb = append(sb, tail...)
+	} else {
+		mark[len(sb)] = true
+	}
 	s.Bytes = sb
 	s.clean = make([]bool, len(sb)+1)
 	for k := range mark {
@@ -188,6 +206,7 @@ type c19Exp struct {
 	unk   bool   // nothing is asserted about this op
 	moved bool   // the op consumes input
 	fail  bool   // the op must fail (no answer, no error): a peek whose bound argument is not what comes next
+	cut   bool   // with unk: the term to read has begun but the input ends inside it: anything but end_of_file (which would drop what was consumed)
 }
 
 func (m *c19Model) runeAt(p int) (string, int) {
@@ -362,9 +381,10 @@ func (m *c19Model) step(op c19Op) c19Exp {
 		for _, it := range m.src.items {
 			if it.start >= m.pos {
 				if it.end > m.avail {
-					// the term is cut by the current end of input: syntax error or a different term; not modelled
+					// the term is cut by the current end of input: syntax error or a different term; which one is not
+					// modelled, but when the term has begun before the end the answer cannot be end_of_file
 					m.desync = true
-					return c19Exp{unk: true}
+					return c19Exp{unk: true, cut: it.start < m.avail}
 				}
 				m.pos = it.end
 				return c19Exp{val: it.canon, moved: true}
@@ -792,6 +812,10 @@ func (c19) Exec(r *kit.Run) {
 					if n < len(obs) {
 						// the op completed and reported obs[n]
 						if e.unk {
+							if e.cut && obs[n] == "end_of_file" {
+								r.Fail("lost-or-repeated", "cut-term-dropped:read_term-answers-end_of_file", "%s delivered end_of_file although a term begins before the end of the input and is cut by it: what was consumed is delivered by no operation and no error says so (source %q, input ends at byte %d, cursor at byte %d before the operation)", c19Desc(sc, ops, n), sc.Source, save.avail, save.pos)
+								return
+							}
 							continue
 						}
 						if e.fail {
